@@ -220,32 +220,38 @@ static bool runCase(const Case &c, Ctx &ctx) {
         break;
       }
       case COPY_MM: {
+        // dest.copyFrom(src, count, destOffset, srcOffset) / src.copyTo(dest, ...): count is in elements of the *caller*,
+        // every offset in elements of the memory it belongs to (docs: "destOffset: the memory offset for the destination")
         const View dv = w.view[d], sv = w.view[s];
         const bool viaCopyTo = A(8) & 1;
-        if (dv.init && sv.init && dv.dsz != sv.dsz) continue;   // count/offset units are per-side dtypes; only equal element sizes are generated
-        const ll dlen = dv.init ? dv.len / dv.dsz : 0, slen = sv.init ? sv.len / sv.dsz : 0;
+        const ll ddsz = dv.init ? dv.dsz : 1, sdsz = sv.init ? sv.dsz : 1;
+        const ll cdsz = viaCopyTo ? sdsz : ddsz;                     // caller's element size
+        const ll dlen = dv.init ? dv.len / ddsz : 0, slen = sv.init ? sv.len / sdsz : 0;
         bool inv = false;
         ll doff = pick(A(2), A(3), dlen, inv), soff = pick(A(4), A(5), slen, inv);
-        const ll room = std::min(doff >= 0 && doff <= dlen ? dlen - doff : 0, soff >= 0 && soff <= slen ? slen - soff : 0);
+        const ll dRoomB = (doff >= 0 && doff <= dlen) ? dv.len - doff * ddsz : 0;
+        const ll sRoomB = (soff >= 0 && soff <= slen) ? sv.len - soff * sdsz : 0;
+        const ll room = std::min(dRoomB, sRoomB) / cdsz;
         ll cnt = pick(A(6), A(7), room, inv);
-        // "all" (-1) means every element of the *caller*: only requested from offset 0 of equally long views
+        // "all" (-1) means every element of the *caller*: only requested from offset 0
         if (cnt == -1 && !(doff == 0 && soff == 0)) { doff = 0; soff = 0; }
         const ll callerLen = viaCopyTo ? slen : dlen;
         const ll ecnt = (cnt == -1) ? callerLen : cnt;
         if (!dv.init && !sv.init) { mayThrowOrNoop = true; ctx.cls("both-uninitialized"); }
         else if (!dv.init || !sv.init) { expectThrow = true; ctx.cls("one-side-uninitialized"); }
         else {
-          const bool valid = doff >= 0 && soff >= 0 && cnt >= -1 && doff + ecnt <= dlen && soff + ecnt <= slen;
+          const ll nb = ecnt * cdsz, db = dv.off + doff * ddsz, sb = sv.off + soff * sdsz;
+          const bool valid = doff >= 0 && soff >= 0 && cnt >= -1 && doff * ddsz + nb <= dv.len && soff * sdsz + nb <= sv.len;
           expectThrow = !valid;
           if (valid) {
-            const ll nb = ecnt * dv.dsz, db = dv.off + doff * dv.dsz, sb = sv.off + soff * sv.dsz;
             // like memcpy, overlapping device-to-device ranges are unspecified: not generated
             if (dv.alloc == sv.alloc && nb > 0 && db < sb + nb && sb < db + nb) continue;
             std::vector<unsigned char> data(w.allocs[sv.alloc].begin() + sb, w.allocs[sv.alloc].begin() + sb + nb);
             const int da = dv.alloc;
             modelUpdate = [&w, da, db, data]() { std::copy(data.begin(), data.end(), w.allocs[da].begin() + db); };
             if (dv.off > 0 || dv.len < (ll) w.allocs[dv.alloc].size()) ++aliasWrites;
-            ctx.cls("device-to-device");
+            ctx.cls(ddsz != sdsz ? "device-to-device:different-element-sizes" : "device-to-device");
+            if (ddsz != sdsz && (doff > 0 || soff > 0)) ctx.nontrivial = true;
           }
         }
         if (viaCopyTo) w.mem[s].copyTo(w.mem[d], cnt, doff, soff);
